@@ -94,6 +94,9 @@ void run(Ctx &ctx) {
     { std::vector<Str> aus = authority_product(); for (auto x : { "//H", "//%41", "//U%2d@H%7e:8", "//u@1%2e2.3.4:80", "//[V1.A]:1", "//[::A]" }) aus.push_back(x); uint64_t ai = 0;
       for (auto &au : aus) for (auto sc : { "", "s:", "S:" }) for (auto pa : { "", "/", "/a/../b", "/%7e/./x" }) for (auto q : { "", "?q" }) { Str r = Str(sc) + au + pa + q;
           if (!ctx.mine(ai++) || ctx.expired() || !ref::is_uri_reference(r)) continue; ra.run_ref(r); rw.run_ref(r); ctx.st.count("authority_product_refs"); } }
+    // a first remaining segment with a colon behind a character that cannot be part of a scheme, or with the colon as its last character
+    { uint64_t ci = 0; for (auto seg : { "a_b:c", "~u:1", "%7E:b", "1@b:c", "k=v:w", "b:", "a:b:", "!:x" }) for (auto form : { "x/../%s", "./%s", "x/../%s/d", "x/y/../../%s", "./x/../%s?q", "%s" }) {
+          Str r = fmt(form, seg); if (!ctx.mine(ci++) || ctx.expired() || !ref::is_uri_reference(r)) continue; ra.run_ref(r); rw.run_ref(r); ctx.st.count("colon_segment_refs"); } }
     // stretch family as references (no percent-encoded dot segments, as the statement says) against a few bases
     { std::vector<Str> sb = { "s://h/a/b?bq", "s:/a/b", "s:a/b", "s:", "s://h" }; Runner<char> sa(&ctx, &lc); Runner<wchar_t> sw2(&ctx, &lc); sa.setup(sb); sw2.setup(sb);
       std::vector<Str> st = stretch_list(ctx.secondary || ctx.quick() ? 0 : 1);
